@@ -12,6 +12,7 @@ import (
 
 	"github.com/safing/portbase/api"
 	"github.com/safing/portbase/database"
+	"github.com/safing/portbase/database/query"
 	"github.com/safing/portbase/database/record"
 	_ "github.com/safing/portbase/database/storage/bbolt"
 	_ "github.com/safing/portbase/database/storage/hashmap"
@@ -25,6 +26,7 @@ type DBPlan struct {
 	Backend string   `json:"backend"`
 	Conns   [][]DMsg `json:"conns"`
 	Writes  []DWrite `json:"writes,omitempty"`
+	Veto    bool     `json:"veto,omitempty"` // a pre-put hook rejects every write to one key
 }
 
 // DMsg is one message sent on a connection.
@@ -45,6 +47,16 @@ type DWrite struct {
 	Gap    int  `json:"gap,omitempty"`
 }
 
+// vetoHook rejects every put below its query (makes the write step of update/insert/delete fail after a successful read).
+type vetoHook struct {
+	database.HookBase
+}
+
+func (vetoHook) UsesPrePut() bool { return true }
+func (vetoHook) PrePut(r record.Record) (record.Record, error) {
+	return nil, fmt.Errorf("put rejected by harness hook")
+}
+
 type Rec struct {
 	record.Base
 	sync.Mutex
@@ -58,7 +70,7 @@ var dBodies = []string{`J{"N":"w1","S":"alpha"}`, `J{"N":"w2","S":"beta","X":{"y
 var dGaps = []time.Duration{0, time.Millisecond, 5 * time.Millisecond}
 
 func genC13(rng *rand.Rand, tier string) *DBPlan {
-	p := &DBPlan{Backend: []string{"hashmap", "bbolt"}[rng.IntN(2)]}
+	p := &DBPlan{Backend: []string{"hashmap", "bbolt"}[rng.IntN(2)], Veto: rng.IntN(3) == 0}
 	nc := 1 + rng.IntN(3)
 	kinds := []string{"get", "get", "query", "sub", "qsub", "create", "update", "insert", "delete", "cancel", "raw"}
 	for c := 0; c < nc; c++ {
@@ -77,7 +89,7 @@ func genC13(rng *rand.Rand, tier string) *DBPlan {
 		}
 		p.Conns = append(p.Conns, msgs)
 	}
-	nw := rng.IntN(6)
+	nw := rng.IntN(10)
 	for i := 0; i < nw; i++ {
 		p.Writes = append(p.Writes, DWrite{Key: rng.IntN(4), Delete: rng.IntN(4) == 0, Gap: rng.IntN(len(dGaps))})
 	}
@@ -109,9 +121,16 @@ type connState struct {
 	order   []string
 }
 
+type bgWrite struct {
+	Key      string
+	Inv, Ret uint64
+	OK       bool
+}
+
 type c13State struct {
-	conns []*connState
-	dir   string
+	conns  []*connState
+	dir    string
+	writes []bgWrite
 }
 
 var c13Run int
@@ -156,6 +175,12 @@ func execC13(p *DBPlan, rc *simkit.RunCtx) {
 	put(dKeys[3], rw)
 	if rc.Failed() {
 		return
+	}
+	if p.Veto {
+		if _, err := database.RegisterHook(query.New(dKeys[1]), &vetoHook{}); err != nil {
+			rc.Fail("C13.harness", "RegisterHook failed", err.Error())
+			return
+		}
 	}
 	var wg sync.WaitGroup
 	for ci, msgs := range p.Conns {
@@ -232,7 +257,10 @@ func execC13(p *DBPlan, rc *simkit.RunCtx) {
 			if w.Delete {
 				_ = priv.Delete(dKeys[w.Key])
 			} else if w.Key != 3 {
-				_ = priv.Put(wj(dKeys[w.Key], fmt.Sprintf("bg%d", i), "alpha"))
+				bw := bgWrite{Key: dKeys[w.Key], Inv: simrt.Seq()}
+				bw.OK = priv.Put(wj(dKeys[w.Key], fmt.Sprintf("bg%d", i), "alpha")) == nil
+				bw.Ret = simrt.Seq()
+				s.writes = append(s.writes, bw)
 			}
 		}
 	}()
@@ -380,6 +408,37 @@ func checkC13(p *DBPlan, rc *simkit.RunCtx) {
 				if !hasType(types, "done") && !hasType(types, "error") {
 					bad("never ended")
 					return
+				}
+			}
+			if req.Kind == "qsub" && strings.HasPrefix(req.Key, "query testdb:") && !strings.Contains(req.Key, "where") && !strings.Contains(req.Key, "(") {
+				// every matching write that began after the query part was reported done and returned before the
+				// cancel must be notified
+				var doneSeq uint64
+				for _, r := range reps {
+					if r.Type == "done" && doneSeq == 0 {
+						doneSeq = r.Seq
+					}
+				}
+				prefix := strings.TrimPrefix(req.Key, "query ")
+				if doneSeq != 0 {
+					for _, w := range s.writes {
+						if !w.OK || !strings.HasPrefix(w.Key, prefix) || w.Inv < doneSeq || (req.CancelledAt != 0 && w.Ret > req.CancelledAt) {
+							continue
+						}
+						n := 0
+						for _, r := range reps {
+							// (hashmap hands out the stored object: a put that is read from the feed after a later
+							// delete is announced as del, so any notification for the key counts)
+							if (r.Type == "upd" || r.Type == "new" || r.Type == "del") && r.Key == w.Key && r.Seq > w.Inv {
+								n++
+							}
+						}
+						if n == 0 {
+							rc.Fail("C13.notification-lost", "a matching change made after the query part of a qsub was done was not notified", fmt.Sprintf("conn %d op %s (%q): write to %s", ci, op, req.Key, w.Key))
+							return
+						}
+						rc.Probe("qsub-notification-checked")
+					}
 				}
 			}
 			rc.Probe("request-" + req.Kind)
